@@ -13,6 +13,7 @@ R  the same kernels/rasters through the real focal.apply / focal_stats / mean / 
 T  seeded larger / random rasters, kernels, dtypes, weighted kernels, kernels larger than the raster.
 """
 import itertools
+import json
 import os
 import random
 
@@ -372,7 +373,7 @@ def run(ctx):
     thorough = ctx.tier == "thorough"
     stats_set = core.Raw("{%s}" % ", ".join('"%s"' % s for s in STATS))
     if os.environ.get("VERIF_C09_STAGE") == "R":      # development aid: replay only (mutation testing)
-        return replay(ctx, rng)
+        return replay_all(ctx, rng)
 
     # ---------------------------------------------------------------- M : Focal.tla
     inv_f = ["BufferIsPositionedWindow", "BufferHoldsExactlyTheWindow", "StatsAreStatsOfTheWindow", "StatLemmas"]
@@ -387,10 +388,10 @@ def run(ctx):
                     coverage=False)
     ctx.model_check("Focal", focal_cfg([(2, 2)], [(1, 3), (3, 1)], KFAMILY + K33_SEL, "all"), "values_2x2")
     if thorough:
-        ctx.model_check("Focal", focal_cfg([(2, 2), (1, 3), (3, 1)], [(1, 3), (3, 1), (3, 3)], KFAMILY, "all"),
-                        "values_small_all_masks")
-        ctx.model_check("Focal", focal_cfg([(2, 3)], [(1, 3)], KFAMILY[3:] + K33_SEL, "all"), "values_2x3")
-        ctx.model_check("Focal", focal_cfg([(4, 4)], [(3, 1)], KFAMILY[:3] + KFAMILY[6:] + K33_SEL, "sparse",
+        ctx.model_check("Focal", focal_cfg([(2, 2), (1, 3), (3, 1)], [(1, 3), (3, 1), (3, 3)], KFAMILY, "all",
+                                           vals=[0, 1, "nan"]), "values_small_all_masks")
+        ctx.model_check("Focal", focal_cfg([(2, 3)], [(1, 3)], KFAMILY[6:8] + K33_SEL[:6], "all"), "values_2x3")
+        ctx.model_check("Focal", focal_cfg([(4, 4)], [(3, 1)], KFAMILY[6:] + K33_SEL[:4], "sparse",
                                            vals=[1, "nan"]), "values_4x4_sparse")
     for mut, inv in (("transpose", "BufferIsPositionedWindow"), ("mirror_rows", "BufferHoldsExactlyTheWindow"),
                      ("mirror_cols", "BufferIsPositionedWindow"), ("half_up", "BufferIsPositionedWindow"),
@@ -459,17 +460,20 @@ def run(ctx):
     if os.environ.get("VERIF_C09_STAGE") == "M":      # development aid: model checking only
         return
 
-    replay(ctx, rng)
+    replay_all(ctx, rng)
 
 
-def replay(ctx, rng):
+def replay_all(ctx, rng):
     # ---------------------------------------------------------------- R / T : one fan-out over the real code
     fam = masks(1, 3) + masks(3, 1) + masks(3, 3) + KFAMILY
     jobs = (apply_window_jobs(rng, ctx.tier, fam) + stats_jobs(rng, ctx.tier, fam, K33_SEL + KFAMILY[:6])
             + reducer_jobs(rng, ctx.tier, fam) + mean_jobs(rng, ctx.tier) + conv_jobs(rng, ctx.tier)
             + hot_jobs(rng, ctx.tier) + badkernel_jobs())
     jobs = arrange(rng, jobs)
-    cases = core.run_jobs("focal_worker", jobs, nproc=NPROC)
+    judge_cases(ctx, core.run_jobs("focal_worker", jobs, nproc=NPROC))
+
+
+def judge_cases(ctx, cases):
     by = {}
     for c in cases:
         if "error" in c:
@@ -504,6 +508,12 @@ def replay(ctx, rng):
         for c in by.get(kind, [])[:2]:
             ctx.sample({k: c[k] for k in c if k in ("kind", "X", "K", "Wt", "passes", "excl", "out", "raw")}, limit=8)
     ctx.extra["replayed_by_kind"] = {k: len(v) for k, v in by.items()}
+
+
+def replay(ctx, rec):
+    """./check Cxx --replay file : exactly that case through the real code and the specification"""
+    saved = rec["case"]
+    judge_cases(ctx, core.run_jobs("focal_worker", [saved.get("job", saved)], nproc=1))
 
 
 META = {
